@@ -530,6 +530,8 @@ def _run_e3(ctx, items):
             ctx.count("e3:env_multi_cases")
         if item.get("kind") == "absorbed":
             ctx.count("e3:absorbed_cases")
+            if rep.get("engine_term"):
+                ctx.engine_terms = getattr(ctx, "engine_terms", []) + [(item, rep)]
         if item.get("shared_globs"):
             ctx.count("e3:cases_with_shared_pattern_registrations")
             ctx.count("e3:noop_rebuilds_on_shared_pattern_projects",
@@ -594,10 +596,50 @@ def _run_fixed_witnesses(ctx):
                              f"property changed; C04_full_refuted and design.d/C04.md need a revision")
 
 
+ENGINE_HEADER = ("From Coq Require Import List NArith Bool.\nImport ListNotations.\n"
+                 "From SV Require Import model.Engine model.NoopExec.\nOpen Scope N_scope.\n")
+
+
+def _check_engine_terms(ctx):
+    """The engine model of the executed-cone theorems (model/Engine.v + model/NoopExec.v) against the real director
+    on the fixed-plan absorbed cases: inside Coq the model, run on the two worlds of the case, executes exactly
+    the steps the director executed, checks and skips only steps the director skipped, and changes exactly the
+    outputs that changed."""
+    pairs = getattr(ctx, "engine_terms", [])
+    ctx.engine_terms = []
+    if not pairs:
+        return
+    t0 = time.time()
+    try:
+        bad = _run_cases(ctx, "c04engine", ENGINE_HEADER, [rep["engine_term"] for _, rep in pairs], chunk=12)
+    except Exception as exc:  # noqa: BLE001  the implementation-only oracles above do not depend on this evaluation
+        ctx.notes.append(f"engine-model evaluation not possible ({type(exc).__name__}: {str(exc)[:200]})")
+        return
+    ctx.stats["engine_coq_s"] = round(ctx.stats.get("engine_coq_s", 0) + time.time() - t0, 1)
+    ctx.count("e3:engine_model_cases", len(pairs))
+    ctx.count("e3:engine_model_agrees", len(pairs) - len(bad))
+    ctx.traces_validated += len(pairs) - len(bad)
+    for (item, rep) in pairs:
+        ctx.case(("engine", item["seed"], item["flavour"]), nontrivial=bool(rep["cone_log"]["skipped"]))
+    for b in bad[:2]:
+        item, rep = pairs[b]
+        term = rep["engine_term"].replace("wf proj && check_cone_hist", "trace_cone_hist")
+        got = common.eval_terms(ctx, "c04enginediag", ENGINE_HEADER, [term])
+        ctx.add_failure("correspondence", "E3:Engine", f"E3:engine:{item['flavour']}:executed-or-skipped-set-differs",
+                        f"seed {item['seed']} ({rep.get('variant')}): model/Engine.v and the real director disagree on "
+                        f"which steps the rebuild executed / skipped or which outputs changed; observed "
+                        f"{rep['cone_log']}; model (log, changes) per build: {(got[0] or '')[:900]}",
+                        witness={"item": {k: v for k, v in item.items()}, "project": rep["project"],
+                                 "history": rep["history"], "cone_edits": rep.get("cone_edits"), "cone_schedule": None,
+                                 "failure": {"signature": "engine", "cone_log": rep["cone_log"]},
+                                 "model_term": rep["engine_term"]})
+
+
 def oracle(ctx):
     _run_nglob(ctx, NGLOB_CASES[ctx.tier])
     _run_fixed_witnesses(ctx)
     _run_e3(ctx, _e3_items(ctx))
+    _check_engine_terms(ctx)
 
 
 def search(ctx):
@@ -607,6 +649,7 @@ def search(ctx):
         it["seed"] += 7000000                      # other seeds than the oracle's
         it["max_phases"] = max(it["max_phases"], 4)
     _run_e3(ctx, items)
+    _check_engine_terms(ctx)
     _run_nglob(ctx, 4 * NGLOB_CASES[ctx.tier], tag="ngsearch")
 
 
